@@ -191,11 +191,14 @@ def itemise(text, names):
         pos[0] += 1
         return loop(kind, x, inner)
 
-    def parse_block(stack, enders):
+    def parse_block(stack, enders, limit=None):
         '''statements up to (not including) a line matching one of enders
-        (strings or compiled patterns); None = end of the subroutine.'''
+        (strings or compiled patterns); None = end of the subroutine.  With
+        limit: stop after that many nodes.'''
         nodes = []
         while True:
+            if limit is not None and len(nodes) >= limit:
+                return nodes
             if pos[0] >= len(body):
                 if enders is None:
                     return nodes
@@ -218,9 +221,17 @@ def itemise(text, names):
                 if kind == "acc_loop":
                     x = ("seq" if re.search(r"\bseq\b", s) else
                          "ind" if re.search(r"\bindependent\b", s) else "auto")
-                    if pos[0] >= len(body) or not RE_DO.match(body[pos[0]]):
+                    # the directive applies to the next statement: a loop,
+                    # possibly under further loop directives
+                    if pos[0] >= len(body) or not (
+                            RE_DO.match(body[pos[0]])
+                            or re.match(r"^!\$(omp (parallel )?do|acc loop)\b",
+                                        body[pos[0]])):
                         raise Unsupported("acc loop not followed by a loop")
-                    nodes.append(directive(kind, x, [parse_loop(stack)]))
+                    inner = parse_block(stack, ("end do",), limit=1)
+                    if len(inner) != 1:
+                        raise Unsupported("acc loop not followed by a loop")
+                    nodes.append(directive(kind, x, inner))
                     continue
                 inner = parse_block(stack, (end,))
                 pos[0] += 1
